@@ -35,6 +35,9 @@ func vfFragments(an ast.Node) []fragment {
 func vfCheckInvariant(r *FileRestorer, mark, c0 int, cursor0 token.Pos, id string) {
 	vfAssert(r.cursor >= cursor0, id+"/cursor-monotone")
 	vfAssert(r.cursorAtNewLine <= r.cursor, id+"/fresh-mark-behind-cursor")
+	if n := len(r.lines); n > 1 {
+		vfAssert(vfImplies(r.base+r.lines[n-1]+1 == int(r.cursor), r.cursorAtNewLine == r.cursor), id+"/directly-behind-line-start-means-fresh")
+	}
 	for i := mark; i < len(r.lines); i++ {
 		vfAssert(r.lines[i-1] < r.lines[i], id+"/lines-strictly-increasing")
 		vfAssert(r.base+r.lines[i] < int(r.cursor), id+"/line-before-cursor")
@@ -183,6 +186,26 @@ func vfPerType_C04(typ string) {
 	if point == "End" && an.Pos().IsValid() {
 		for _, c := range rendered {
 			vfAssert(c.Slash >= an.End(), "end-after-last-token")
+		}
+	}
+	vfCheckEndIndent(r, point, rendered)
+}
+
+// vfCheckEndIndent: a comment of an End point that starts a line is indented (it does not sit in the
+// first column, which is where the printer would take it for a comment of the following element); this
+// is part of the printer contract PC: the printer looks at the column of a comment that begins a line.
+func vfCheckEndIndent(r *FileRestorer, point string, rendered []*ast.Comment) {
+	if point != "End" {
+		return
+	}
+	for _, c := range rendered {
+		for i, l := range r.lines {
+			// A recorded line start is the position of the line break itself; what follows it starts
+			// one further. A comment exactly there would sit in column 1. (The first line has no line
+			// break in front of it.)
+			if i > 0 {
+				vfAssert(token.Pos(r.base+l)+1 != c.Slash, "end-comment-on-own-line-is-indented")
+			}
 		}
 	}
 }
@@ -670,4 +693,63 @@ func VerifC11Collapse() {
 		_, ok := r.Dst.Nodes[a]
 		vfAssert(ok, "restore/every-ast-node-mapped")
 	}
+}
+
+
+// VerifC04Qualified: the decoration points of a package-qualified identifier (Start, X, End), which an
+// import-managing restorer renders through its selector-expansion code: once, in order, in the gap the
+// fragmenter assigns to the point on the restored selector expression; End comments indented.
+func VerifC04Qualified() {
+	points := []string{"Start", "X", "End"}
+	point := points[vfChoice("point", 3)]
+	id := &dst.Ident{Name: vfOpaque("name", "N"), Path: "x.y/pkg"}
+	decs, _ := vfDecorations("d", 2)
+	switch point {
+	case "Start":
+		id.Decs.Start = decs
+	case "X":
+		id.Decs.X = decs
+	default:
+		id.Decs.End = decs
+	}
+	r := vfRestorer()
+	calls := 0
+	r.Resolver, r.Path = vfResolver{names: map[string]string{"x.y/pkg": "pkg"}, failAt: -1, calls: &calls}, vfLocal
+	r.packageNames["x.y/pkg"] = vfBytes("pkgname", 1, "pq")
+	c0, cursor0 := len(r.comments), r.cursor
+	an := r.restoreNode(id, "CallExpr", "Fun", "Expr", false)
+	se, ok := an.(*ast.SelectorExpr)
+	vfAssert(ok, "restored-as-selector")
+	if !ok {
+		return
+	}
+	var rendered []*ast.Comment
+	for i := c0; i < len(r.comments); i++ {
+		rendered = append(rendered, r.comments[i].List...)
+	}
+	k := 0
+	for _, d := range decs {
+		if d == "\n" {
+			continue
+		}
+		vfAssert(k < len(rendered), "every-comment-rendered")
+		if k < len(rendered) {
+			vfAssert(rendered[k].Text == d, "comment-text-and-order")
+		}
+		k++
+	}
+	vfAssert(k == len(rendered), "no-comment-duplicated-or-invented")
+	lo, hi := cursor0, r.cursor
+	switch point {
+	case "Start":
+		hi = se.X.Pos()
+	case "X":
+		lo, hi = se.X.End(), se.Sel.Pos()
+	default:
+		lo = se.Sel.End()
+	}
+	for _, c := range rendered {
+		vfAssert(c.Slash >= lo && c.Slash+token.Pos(len(c.Text)) <= hi, "comment-in-the-gap-of-its-point")
+	}
+	vfCheckEndIndent(r, point, rendered)
 }
